@@ -20,16 +20,22 @@ from mc.report import Report
 
 PID = "C20"
 
-MSGS = (b"ABCDE", b"fghijkl", b"0123")      # distinct lengths, disjoint alphabets
+MSGS = (b"ABCDE", b"fghijkl", b"0123", b"mnopqr")      # distinct lengths, disjoint alphabets (part 1 uses the first three)
 
 
-def options (n):
-  """Distinct outcomes of a send call that was offered n bytes; index 0 is the default."""
+def options (n, half=False, default="all"):
+  """Distinct outcomes of a send call that was offered n bytes; index 0 is the default outcome
+  (accept everything unless the scenario's own default script says otherwise)."""
   o = [("all", n)]
   if n > 1: o.append(("one", 1))
   if n > 2: o.append(("nm1", n - 1))
+  if half and n > 4: o.append(("half", (n + 1) // 2))        # at least half, not all, distinct from 1 and n-1
   o.append(("eagain", None))
   o.append(("epipe", None))
+  if default != "all":
+    for i, x in enumerate(o):
+      if x[0] == default:
+        o.insert(0, o.pop(i)); break
   return o
 
 
@@ -37,14 +43,15 @@ class Script (object):
   """Per-call socket outcomes chosen by the explorer: the first `max_calls` send calls are choices
   (choice 0 = accept everything), later calls accept everything.  `max_dev` (optional) bounds the
   number of non-default outcomes independently of the explorer's own deviation bound."""
-  def __init__ (self, ctx, max_calls, max_dev=None, costly=True):
-    self.ctx = ctx; self.max_calls = max_calls; self.max_dev = max_dev; self.costly = costly
+  def __init__ (self, ctx, max_calls, max_dev=None, costly=True, half=False):
+    self.ctx = ctx; self.max_calls = max_calls; self.max_dev = max_dev; self.costly = costly; self.half = half
     self.calls = 0; self.devs = 0
-  def outcome (self, n, label):
+  def outcome (self, n, label, default="all"):
+    """default: the outcome the scenario's own script prescribes for this call (choice 0)."""
     self.calls += 1
-    if self.calls > self.max_calls: return ("all", n)
-    if self.max_dev is not None and self.devs >= self.max_dev: return ("all", n)
-    opts = options(n)
+    opts = options(n, self.half, default)
+    if self.calls > self.max_calls: return opts[0]
+    if self.max_dev is not None and self.devs >= self.max_dev: return opts[0]
     c = self.ctx.choose(len(opts), label, costly=self.costly)
     if c: self.devs += 1
     return opts[c]
@@ -66,7 +73,7 @@ def site_of (exc):
 
 def first_fatal (calls):
   for i, (n, kind) in enumerate(calls):
-    if kind in ("epipe", "after-close", "after-shutdown", "after-fatal"): return i
+    if kind in ("epipe", "after-close", "after-shutdown", "after-fatal", "after-shutwr"): return i
   return None
 
 
@@ -105,7 +112,8 @@ class P1Sock (object):
     self.accepted = b""
     self.calls = []            # (offered, outcome)
     self.closed = 0
-    self.shut = []
+    self.shut = []             # (how, bytes accepted so far, send calls so far)
+    self.shutwr = 0
   def fileno (self): return 5
   def getpeername (self): return ("peer", 1)
   def setblocking (self, b): pass
@@ -114,6 +122,9 @@ class P1Sock (object):
     if self.closed:
       self.calls.append((n, "after-close"))
       raise _socket.error(errno.EBADF, "bad file descriptor")
+    if self.shutwr:
+      self.calls.append((n, "after-shutwr"))
+      raise _socket.error(errno.EPIPE, "broken pipe")
     kind, k = self.script.outcome(n, "sock.send")
     self.calls.append((n, kind))
     if kind == "eagain": raise _socket.error(errno.EAGAIN, "would block")
@@ -121,7 +132,9 @@ class P1Sock (object):
     self.accepted += bytes(data[:k])
     return k
   def recv (self, n, flags=0): raise _socket.error(errno.EAGAIN, "would block")
-  def shutdown (self, how): self.shut.append(how)
+  def shutdown (self, how):
+    self.shut.append((how, len(self.accepted), len(self.calls)))
+    if how in (_socket.SHUT_WR, _socket.SHUT_RDWR): self.shutwr += 1
   def close (self): self.closed += 1
 
 
@@ -144,7 +157,7 @@ def p1_exec (ctx, c):
   Returns (bad, observation) with bad = None | (clause, what)."""
   io = p1_setup()
   _LOG.records = []
-  script = Script(ctx, c["calls"])
+  script = Script(ctx, c["calls"], half=True)
   sock = P1Sock(script)
   loop = io.RecocoIOLoop()
   worker = loop.new_worker(sock)
@@ -155,8 +168,10 @@ def p1_exec (ctx, c):
   st = dict(sel=None, alive=True, started=False, ops=0)
   queued = []
   ops = [(a, MSGS[i]) for i, a in enumerate(c["api"])]
+  if c.get("sd") is not None: ops.insert(c["sd"], ("shutdown", None))     # worker.shutdown() after c["sd"] sends
   if c.get("close"): ops.append(("close", None))
   hist = []
+  sd = dict(pending=None)        # were bytes still unsent when shutdown() was requested?
 
   def answer ():
     sel = st["sel"]
@@ -195,6 +210,17 @@ def p1_exec (ctx, c):
       where = "%s:%s" % (exc[-1][1], exc[-1][2]) if exc else "?"
       return ("loop-died:" + where, "RecocoIOLoop.run ended (%s); calls %r" % (where, sock.calls))
     closed_by_client = c.get("close") and ("close", None) in hist
+    wr = [x for x in sock.shut if x[0] in (_socket.SHUT_WR, _socket.SHUT_RDWR)]
+    if wr:
+      if ("shutdown", None) not in hist:
+        return ("shutwr-spurious", "socket.shutdown(SHUT_WR) without a shutdown request")
+      if wr[0][1] != len(exp):
+        return ("shutwr-early", "socket.shutdown(SHUT_WR) after %d of the %d queued bytes were accepted: the tail %r is lost (socket calls %r)"
+                % (wr[0][1], len(exp), exp[wr[0][1]:], sock.calls))
+      if len(wr) > 1:
+        return ("shutwr-twice", "socket.shutdown(SHUT_WR) issued %d times" % len(wr))
+      if len(sock.calls) > wr[0][2]:
+        return ("send-after-shutwr", "socket.send called after socket.shutdown(SHUT_WR): calls %r" % (sock.calls,))
     if ff is None and not closed_by_client and closes:
       return ("closed-spurious", "close handler ran without a fatal error or a close request")
     if quiescent:
@@ -204,6 +230,8 @@ def p1_exec (ctx, c):
                   % (ff is not None, bool(closed_by_client), len(closes)))
       elif sock.accepted != exp:
         return ("stream-incomplete", "at quiescence the socket accepted %r of %r (send_buf=%r)" % (sock.accepted, exp, worker.send_buf))
+      elif sd["pending"] and not wr:
+        return ("shutwr-missing", "shutdown() was requested while bytes were unsent; everything was flushed but SHUT_WR was never issued")
     return None
 
   bad = None
@@ -226,11 +254,16 @@ def p1_exec (ctx, c):
     timeouts = 0
     if ch == 0:
       api, m = ops[qi]; qi += 1
+      if m is not None and sock.shutwr:
+        break                    # queueing after the write side was shut down is the client's error: not explored
       hist.append((api, m))
       st["ops"] += 1
       try:
         if api == "close":
           worker.close()
+        elif api == "shutdown":
+          sd["pending"] = len(worker.send_buf) > 0 and not worker.closed
+          worker.shutdown()
         else:
           queued.append(m)
           (worker.send if api == "send" else worker.send_fast)(m)
@@ -243,7 +276,7 @@ def p1_exec (ctx, c):
     bad = check()
   try: gen.close()
   except Exception: pass
-  obs = dict(api=list(c["api"]), close=bool(c.get("close")), history=["%s %s" % (h[0], h[1].decode() if h[1] else "") if isinstance(h, tuple) else h for h in hist],
+  obs = dict(api=list(c["api"]), close=bool(c.get("close")), sd=c.get("sd"), shutdowns=list(sock.shut), history=["%s %s" % (h[0], h[1].decode() if h[1] else "") if isinstance(h, tuple) else h for h in hist],
              socket_calls=list(sock.calls), accepted=sock.accepted, close_handler_runs=len(closes), socket_closed=sock.closed,
              send_buf=worker.send_buf, steps=st["ops"])
   return bad, obs
@@ -257,12 +290,15 @@ def p1_configs (cfg):
   cs = []
   for a in apis:
     for close in (False, True):
-      cs.append(dict(part=1, api=a, close=close, calls=6, bound=cfg.pick(2, 3)))
+      cs.append(dict(part=1, api=a, close=close, sd=None, calls=6, bound=cfg.pick(2, 3)))
+    for sd in cfg.pick((3, 1), (3, 2, 1, 0)):       # worker.shutdown() after that many sends
+      cs.append(dict(part=1, api=a, close=False, sd=sd, calls=6, bound=cfg.pick(2, 3)))
   return cs
 
 
 def p1_name (c):
-  return "p1/%s%s" % ("-".join(c["api"]), "/close" if c.get("close") else "")
+  return "p1/%s%s%s" % ("-".join(c["api"]), "/close" if c.get("close") else "",
+                        "" if c.get("sd") is None else "/shutdown-after-%d" % c["sd"])
 
 
 def p1_worker (c):
@@ -271,7 +307,7 @@ def p1_worker (c):
     bad, obs = res
     rep.evaluations += 1
     rep.transitions += obs["steps"]
-    rep.outcome(("p1", obs["api"], obs["close"], obs["history"], obs["socket_calls"], obs["accepted"], obs["close_handler_runs"], bad and bad[0]))
+    rep.outcome(("p1", obs["api"], obs["close"], obs["sd"], obs["shutdowns"], obs["history"], obs["socket_calls"], obs["accepted"], obs["close_handler_runs"], bad and bad[0]))
     if rep.evaluations % 997 == 1: rep.sample(dict(part=1, **obs))
     if bad:
       rep.violation("%s:p1:%s" % (PID, bad[0]), "%s [%s]" % (bad[1], p1_name(c)),
@@ -720,7 +756,7 @@ def replay (cfg, data):
     ctx = Ctx(list(data["choices"]))
     bad, obs = p1_exec(ctx, c)
     lines = ["%s" % p1_name(c)]
-    for k in ("history", "socket_calls", "accepted", "send_buf", "close_handler_runs", "socket_closed"):
+    for k in ("history", "socket_calls", "accepted", "send_buf", "shutdowns", "close_handler_runs", "socket_closed"):
       lines.append("  %-20s %r" % (k, obs[k]))
     lines.append("=> %r" % (bad,))
     return bool(bad), "\n".join(lines)
